@@ -664,6 +664,13 @@ class Resource(object):
                 else self.uri.create_outstream())
 
     def extend(self, values):
+        # (the values may be a collection that shrinks while its elements
+        # become roots; and nothing is taken when one of them is refused)
+        values = list(values)
+        for x in values:
+            if not hasattr(x, 'dyn_inst'):
+                raise ValueError('The resource requires an EObject-like '
+                                 f'object, but received {type(x)} instead.')
         append = self.append
         for x in values:
             append(x)
